@@ -71,6 +71,12 @@ class SigGen:
             sigs = {a: rng.randrange(nev) for a in rng.sample(ATTRS, nsig)}
             classes.append({"name": f"O{k}", "base": base, "signals": sigs})
         instances = [rng.randrange(ncls) for _ in range(rng.randint(1, 4))]
+        copies = {}
+        for i in range(1, len(instances)):
+            if rng.random() < 0.25:
+                j = rng.randrange(i)
+                instances[i] = instances[j]
+                copies[str(i)] = j
         self.classes, self.instances, self.evparents, self.nev = classes, instances, evparents, nev
         self.chan_of: dict[tuple[int, str], int] = {}
         self.chan_ev: list[int] = []
@@ -93,7 +99,8 @@ class SigGen:
         for s, st in sorted(self.streams.items()):
             if st["open"]:
                 ops.append({"op": "leave", "s": s})
-        return {"kind": "sig", "nevcls": nev, "evparents": evparents, "classes": classes, "instances": instances, "ops": ops}
+        return {"kind": "sig", "nevcls": nev, "evparents": evparents, "classes": classes, "instances": instances,
+                "copies": copies, "ops": ops}
 
     def op_access(self) -> dict[str, Any]:
         rng = self.rng
